@@ -290,8 +290,20 @@ thread_local!(static LOCAL_COUNTER: std::cell::Cell<u64> = const { std::cell::Ce
 
 pub const PROFILES: [&str; 7] = ["none", "yield", "spin", "sleep", "slow-one-worker", "slow-sharer", "slow-wakeup"];
 
+/// Traces finished per simulation worker thread (counted at the hook after each trace): the
+/// logical clock of a simulation worker, also when its traces evaluate nothing any more.
+static TRACES_BY_THREAD: OnceLock<Mutex<HashMap<std::thread::ThreadId, u64>>> = OnceLock::new();
+
+pub fn traces_of(thread: std::thread::ThreadId) -> u64 {
+    TRACES_BY_THREAD.get().and_then(|m| m.lock().unwrap().get(&thread).copied()).unwrap_or(0)
+}
+
 pub fn install_perturber() {
+    TRACES_BY_THREAD.get_or_init(|| Mutex::new(HashMap::new()));
     verif::set_perturber(Some(Arc::new(|site: &'static str| {
+        if site == "simulation:after_trace" {
+            *TRACES_BY_THREAD.get().unwrap().lock().unwrap().entry(std::thread::current().id()).or_default() += 1;
+        }
         let profile = PROFILE.load(Ordering::Relaxed);
         if profile == 0 {
             return;
@@ -1142,8 +1154,11 @@ fn simulation_finish_case(case: &mut Case) {
         std::thread::sleep(Duration::from_micros(200));
     }
     case.add("simulation_finish_conditions_observed", 1);
-    // phase 2: everybody stops after the trace at hand
+    // phase 2: everybody stops after the trace at hand. Logical clocks: evaluations made by the
+    // model, and traces finished per worker thread (a worker whose traces have nothing left to
+    // evaluate still finishes traces).
     let calls0 = model.actions_calls.load(Ordering::Relaxed);
+    let traces0: Vec<u64> = hs.iter().map(|h| traces_of(h.thread().id())).collect();
     let bound = 1000 * threads as u64 * (n + 1);
     let t = Instant::now();
     loop {
@@ -1152,10 +1167,12 @@ fn simulation_finish_case(case: &mut Case) {
             return;
         }
         let after = model.actions_calls.load(Ordering::Relaxed) - calls0;
-        if after > bound {
+        let traces_after: u64 = hs.iter().zip(&traces0).filter(|(h, _)| !h.is_finished()).map(|(h, t0)| traces_of(h.thread().id()) - t0).max().unwrap_or(0);
+        if after > bound || traces_after > 10_000 {
             case.violation(
                 "C05/simulation/workers-keep-simulating-after-the-finish-condition-holds",
                 json!({"run": wit(), "evaluations_after_the_condition_was_observed": after, "bound": bound,
+                       "traces_finished_by_one_worker_after_the_condition_was_observed": traces_after,
                        "workers_still_running": hs.iter().filter(|h| !h.is_finished()).count()}),
             );
             return;
